@@ -181,9 +181,9 @@ public:
 
     // initialize interpolation operator for M2M and L2L (non leaf operations)
 
-    // allocate 8 arrays per level
-    ChildParentInterpolator = new FReal**[TreeHeight];
-    for ( int l=0; l<TreeHeight; ++l){
+    // allocate 8 arrays per level (the operators read level 2 whatever the height)
+    ChildParentInterpolator = new FReal**[std::max(3, TreeHeight)];
+    for ( int l=0; l<std::max(3, TreeHeight); ++l){
       ChildParentInterpolator[l] = new FReal*[8];
       for (unsigned int c=0; c<8; ++c)
         ChildParentInterpolator[l][c]=nullptr;        
@@ -192,7 +192,7 @@ public:
     // Set number of non-leaf ios that actually need to be computed
     unsigned int reducedTreeHeight; // = 2 + nb of computed nl ios
     if(CellWidthExtension==0.) // if no cell extension, then ...
-        reducedTreeHeight = std::min(3, TreeHeight); // cmp only 1 non-leaf io
+        reducedTreeHeight = 3; // cmp only 1 non-leaf io
     else
       reducedTreeHeight = TreeHeight; // cmp 1 non-leaf io per level
 
@@ -216,7 +216,7 @@ public:
    */
   ~FUnifInterpolator()
   {
-    for ( int l=0; l<TreeHeight; ++l) {
+    for ( int l=0; l<std::max(3, TreeHeight); ++l) {
       for (unsigned int child=0; child<8; ++child) {
         if(ChildParentInterpolator[l][child] != nullptr) {
           delete [] ChildParentInterpolator[l][child];
